@@ -15,6 +15,7 @@ def OpOk (s : State) : Op → Prop
   | .swaps c _ => c ≤ maxChainId
   | .dexBatch c nested _ _ => (if nested then s.root else c) ≤ maxChainId
   | .setPool id _ => id < 65535
+  | .seedNext c _ => c ≤ maxChainId
   | _ => True
 
 /-- a successful operation keeps the invariant -/
@@ -24,6 +25,9 @@ theorem apply_sinv {s s' : State} {op : Op} (hi : SInv s) (hok : OpOk s op) (h :
   | setPool id p =>
     injection h with h; subst h
     exact sinv_of_sellFrame hi (frame_setPool _ _ _ hok)
+  | seedNext c b =>
+    injection h with h; subst h
+    exact sinv_of_sellFrame hi ((frame_poolAdd _ _ _ (holdingId_lt hok)).trans (frame_setNext _ _ _))
   | create m => exact createOrder_inv hi h hok.1 hok.2
   | edit m => exact editOrder_inv hi h hok
   | delete c id => exact deleteOrderMsg_inv hi h
